@@ -1,0 +1,20 @@
+# Contracts for the verifier in /verif (comment-only file; never imported).
+# Read by /verif/pyvc/pyvc.py as "registration" units. The fail-safe object is shared by all hooks and swallows every
+# exception that is an instance of a class some hook registered (FailSafe.handle_on accumulates). For "errors that do not
+# come from the gateway are never swallowed" (C19) no hook may register a class as broad as the built-in families that
+# application errors live in (OSError, Exception, ...): narrow(registered).
+
+#@ module hooks/requests.py
+#@ registration RequestsHook.__init__ self._fail_safe.handle_on
+#@   prop C19
+#@   ensures[no-class-broader-than-a-gateway-failure] narrow(registered)
+
+#@ module hooks/tornado.py
+#@ registration TornadoHook.__init__ self._fail_safe.handle_on
+#@   prop C19
+#@   ensures[no-class-broader-than-a-gateway-failure] narrow(registered)
+
+#@ module hooks/aiohttp.py
+#@ registration AioHttpHook.__init__ self._fail_safe.handle_on
+#@   prop C19
+#@   ensures[no-class-broader-than-a-gateway-failure] narrow(registered)
